@@ -133,7 +133,7 @@ def _ensure_makefile():
     files = sorted(
         os.path.relpath(os.path.join(d, f), COQ)
         for d, _, fs in os.walk(COQ) for f in fs
-        if f.endswith(".v") and "_cases" not in d)
+        if f.endswith(".v") and "_cases" not in d and "_wip" not in d)
     text = "-Q . HyV\n-arg -w -arg -notation-overridden,-deprecated,-ambiguous-paths\n" + "\n".join(files) + "\n"
     changed = write_if_changed(proj, text)
     if changed or not os.path.exists(mk):
@@ -173,20 +173,43 @@ def parse_assumptions(out):
     return res
 
 
+def strip_coq_comments(src):
+    out, depth, i, n = [], 0, 0, len(src)
+    instr = False
+    while i < n:
+        two = src[i:i + 2]
+        if depth == 0 and src[i] == '"':
+            instr = not instr
+            out.append(src[i]); i += 1
+        elif instr:
+            out.append(src[i]); i += 1
+        elif two == "(*":
+            depth += 1; i += 2
+        elif two == "*)" and depth > 0:
+            depth -= 1; i += 2
+            if depth == 0:
+                out.append(" ")
+        elif depth > 0:
+            if src[i] == "\n":
+                out.append("\n")
+            i += 1
+        else:
+            out.append(src[i]); i += 1
+    return "".join(out)
+
+
 def audit(dirs=None):
     """grep the development for anything that would weaken the kernel's word."""
     hits = []
     for d, _, fs in os.walk(COQ):
+        if "_wip" in d or "_cases" in d:
+            continue
         for f in fs:
             if not f.endswith(".v"):
                 continue
             p = os.path.join(d, f)
             src = open(p, encoding="utf-8").read()
-            # strip comments (non-nested is enough for our own sources; nested handled by loop)
-            prev = None
-            while prev != src:
-                prev = src
-                src = re.sub(r"\(\*[^()]*?\*\)", " ", src, flags=re.S)
+            src = strip_coq_comments(src)
             for m in FORBIDDEN.finditer(src):
                 hits.append("%s: %s" % (os.path.relpath(p, COQ), m.group(0)))
             if re.search(r"^\s*(Variable|Variables|Hypothesis|Hypotheses|Context)\b", src, re.M):
